@@ -126,6 +126,11 @@ func WorkerMain(t *testing.T) {
 	if tf := os.Getenv("VSIM_TRACE_FILE"); tf != "" {
 		traceFile, _ = os.Create(tf)
 	}
+	// everything the code under test prints to the process's stdout (summaries, spinner frames)
+	// goes to /dev/null; the worker protocol keeps the original descriptor
+	if dn, err := os.OpenFile(os.DevNull, os.O_WRONLY, 0); err == nil {
+		os.Stdout = dn
+	}
 	logrus.SetOutput(ioutil.Discard)
 	logrus.SetLevel(logrus.PanicLevel)
 	if job.WatchdgS <= 0 {
@@ -288,6 +293,8 @@ func dispatch(c *Ctl, job *Job, idx int, res *RunResult) {
 		runIntegJob(c, job, idx, res)
 	case "fault":
 		runFaultJob(c, job, idx, res)
+	case "cli":
+		runCLIJob(c, job, idx, res)
 	default:
 		res.HarnessErr = "unknown engine " + job.Engine
 	}
